@@ -396,7 +396,7 @@ def dist_body_cases(rng, tier):
     plus random and adversarial whole bodies."""
     cases = []
     for size in (12, 32, 64):
-        bgs = 1 if tier == "quick" else 4
+        bgs = 1
         positions = range(size) if tier != "quick" else sorted(set([0, 3, 4, 7, 8, 11, size - 1, size // 2] + [rng.below(size) for _ in range(2)]))
         for pos in positions:
             for _ in range(bgs):
@@ -406,7 +406,9 @@ def dist_body_cases(rng, tier):
                 step = 1 if tier != "quick" else 1
                 for x in range(0, 256, step):
                     for y in range(256):
-                        if tier == "quick" and (x * 256 + y + pos) % 3:
+                        # quick: a third of the 65536 pairs at ~10 positions; thorough: half of them at EVERY position
+                        # (3.5 M cases; the complete 65536-pair enumeration per lane is the in-kernel sweep)
+                        if (x * 256 + y + pos) % (3 if tier == "quick" else 2):
                             continue
                         a, b = bytearray(ba), bytearray(bb)
                         a[pos], b[pos] = x, y
